@@ -300,9 +300,7 @@ func (r *Run) execViewTx(t *Task, idx int, tx *TxPlan) {
 		r.violate(*viol)
 		panic(abortSig{})
 	}
-	r.mu.Lock()
-	r.history = append(r.history, viewRec{Task: t.Name, Begin: begin, End: end, Nonce: first})
-	r.mu.Unlock()
+	r.recordHist(histOp{Task: t.Name, Kind: "r", Call: begin, Ret: end, Nonce: first})
 	t.Yield("view.end", NeedNone)
 }
 
